@@ -188,7 +188,12 @@ func runC18(c *Ctx) {
 				continue
 			}
 			for what, expr := range map[string]string{"value": rc.v, "key": rc.fld} {
-				for _, m := range regexp.MustCompile(`φ:[^:]*:\d+:t\d+:(\w+)`).FindAllStringSubmatch(expr, -1) {
+				for _, m := range regexp.MustCompile(`φ:[^:]*:(\d+):(t\d+):(\w+)`).FindAllStringSubmatch(expr, -1) {
+					m = []string{m[0], m[3], m[1], m[2]}
+					if m[1] != "rangeindex" && consumingCursor(rc.we.Run.Fn, m[2], m[3]) {
+						// the rest of the text still to be scanned: cut shorter on every round
+						continue
+					}
 					if m[1] != "rangeindex" {
 						carried = append(carried, "the "+what+" judged for a parameter can be the one left over from the previous parameter (loop-carried variable "+m[1]+"): a parameter written without '=' inherits its neighbour's value")
 					}
@@ -509,4 +514,120 @@ func nestedCall(expr, fn string) bool {
 		}
 		i = start
 	}
+}
+
+
+// consumingCursor: the loop-carried string φ named reg in block blk of fn is the not yet scanned
+// rest of a text: over every back edge it arrives as a proper suffix of itself that starts behind a
+// delimiter found in it (φ[Index(φ, d)+1:]), or unchanged on an edge over which the loop's own
+// condition variable arrives as false (the round that found no further delimiter is the last).
+func consumingCursor(fn *ssa.Function, blk, reg string) bool {
+	var ph *ssa.Phi
+	for _, b := range fn.Blocks {
+		if fmt.Sprint(b.Index) != blk {
+			continue
+		}
+		for _, ins := range b.Instrs {
+			if x, ok := ins.(*ssa.Phi); ok && x.Name() == reg {
+				ph = x
+			}
+		}
+	}
+	if ph == nil {
+		return false
+	}
+	if bt, ok := ph.Type().Underlying().(*types.Basic); !ok || bt.Kind() != types.String {
+		return false
+	}
+	var loop *loopInfo
+	for _, l := range naturalLoops(fn) {
+		if l.Header == ph.Block() {
+			loop = l
+		}
+	}
+	if loop == nil {
+		return false
+	}
+	// the loop condition: a boolean φ of the header deciding the header's branch into the body
+	var condPhi *ssa.Phi
+	if iff, ok := loop.Header.Instrs[len(loop.Header.Instrs)-1].(*ssa.If); ok {
+		if cp, ok := iff.Cond.(*ssa.Phi); ok && cp.Block() == loop.Header && loop.Body[loop.Header.Succs[0]] {
+			condPhi = cp
+		}
+	}
+	// edge value of φ x for the path (mergeBlock, edge) taken
+	type step struct {
+		blk  *ssa.BasicBlock
+		edge int
+	}
+	var valueAlong func(v ssa.Value, path []step) ssa.Value
+	valueAlong = func(v ssa.Value, path []step) ssa.Value {
+		for {
+			x, ok := v.(*ssa.Phi)
+			if !ok {
+				return v
+			}
+			found := false
+			for _, st := range path {
+				if st.blk == x.Block() {
+					v, found = x.Edges[st.edge], true
+					break
+				}
+			}
+			if !found {
+				return v
+			}
+		}
+	}
+	okAll, consumed := true, 0
+	var visit func(v ssa.Value, path []step, d int)
+	visit = func(v ssa.Value, path []step, d int) {
+		if x, ok := v.(*ssa.Phi); ok && x != ph && loop.Body[x.Block()] && x.Block() != loop.Header && d < 6 {
+			for i, e := range x.Edges {
+				visit(e, append(append([]step{}, path...), step{x.Block(), i}), d+1)
+			}
+			return
+		}
+		if v == ssa.Value(ph) {
+			// unchanged: only on a last round
+			if condPhi == nil {
+				okAll = false
+				return
+			}
+			cv := valueAlong(condPhi.Edges[path[0].edge], path[1:])
+			if cst, ok := cv.(*ssa.Const); !ok || cst.Value == nil || cst.Value.String() != "false" {
+				okAll = false
+			}
+			return
+		}
+		sl, ok := v.(*ssa.Slice)
+		if !ok || sl.X != ssa.Value(ph) || sl.High != nil || sl.Low == nil {
+			okAll = false
+			return
+		}
+		bo, ok := sl.Low.(*ssa.BinOp)
+		if !ok || bo.Op != token.ADD {
+			okAll = false
+			return
+		}
+		k, isK := constInt(bo.Y)
+		call, isCall := bo.X.(*ssa.Call)
+		if !isK || k < 1 || !isCall {
+			okAll = false
+			return
+		}
+		nm := calleeName(&call.Call)
+		if (nm != "strings.IndexByte" && nm != "strings.Index") || call.Call.Args[0] != ssa.Value(ph) {
+			okAll = false
+			return
+		}
+		consumed++
+	}
+	for i, e := range ph.Edges {
+		if !loop.Body[ph.Block().Preds[i]] {
+			continue
+		}
+		visit(e, []step{{ph.Block(), i}}, 0)
+	}
+	return okAll && consumed > 0
 }
